@@ -284,6 +284,8 @@ void XMLWriter::nail(int x, int y)
 void XMLWriter::transition(const edge_t& edge)
 {
     startElement("transition");
+    if (!edge.control)
+        writeAttribute("controllable", "false");
     // source and target
     auto src = source(edge);
     auto dst = target(edge);
@@ -304,10 +306,15 @@ void XMLWriter::labels(int x, int y, const edge_t& edge)
 {
     string str;
     if (edge.select.get_size() > 0) {
-        str = edge.select[0].get_name() + " : ";
-        if (edge.select[0].get_type().size() > 0 && edge.select[0].get_type()[0].size() > 0) {
-            str += edge.select[0].get_type()[0].get_label(0);
-        }  // else ? should not happen
+        for (uint32_t i = 0; i < edge.select.get_size(); ++i) {
+            if (i > 0)
+                str += ", ";
+            // the builder adds the const prefix itself; it is not part of the select syntax
+            auto type = edge.select[i].get_type();
+            if (type.get_kind() == CONSTANT)
+                type = type.get(0);
+            str += edge.select[i].get_name() + " : " + type.declaration();
+        }
         label("select", str, x, y - 32);
     }
     if (!edge.guard.empty()) {
@@ -318,6 +325,9 @@ void XMLWriter::labels(int x, int y, const edge_t& edge)
     }
     if (!edge.assign.empty()) {
         label("assignment", edge.assign.str(), x, y + 16);
+    }
+    if (!edge.prob.empty()) {
+        label("probability", edge.prob.str(), x, y + 32);
     }
 }
 
